@@ -471,3 +471,26 @@ pub fn err_dd(got: f64, r: DD) -> f64 {
     }
     (DD::new(got) - r).abs().to_f64()
 }
+
+impl RefSpline {
+    /// value of piece `i` at `q` in double-double arithmetic (used when q is not a grid value)
+    pub fn eval_piece_dd(&self, i: usize, q: f64) -> DD {
+        let x0 = rat_to_dd(self.x[i]);
+        let h = rat_to_dd(self.h(i));
+        let (y0, y1) = (rat_to_dd(self.y[i]), rat_to_dd(self.y[i + 1]));
+        let (k0, k1) = (rat_to_dd(self.k[i]), rat_to_dd(self.k[i + 1]));
+        let t = (DD::new(q) - x0) / h;
+        let one = DD::new(1.0);
+        let dy = y1 - y0;
+        let a = k0 * h - dy;
+        let b = dy - k1 * h;
+        (one - t) * y0 + t * y1 + t * (one - t) * (a * (one - t) + b * t)
+    }
+    /// exact when possible, double-double otherwise
+    pub fn eval_piece_ref(&self, i: usize, q: f64) -> (DD, bool) {
+        match crate::driver::try_exact(|| self.eval_piece(i, ratq(q))) {
+            Some(r) => (rat_to_dd(r), true),
+            None => (self.eval_piece_dd(i, q), false),
+        }
+    }
+}
